@@ -240,7 +240,7 @@ def status_class(rc, err):
     return f"other:{rc}"
 
 
-MODEL_CLASS = {"ok": "ok", "err-nodest": "err", "err-stream": "err"}
+MODEL_CLASS = {"ok": "ok", "err-nodest": "err", "err-stream": "err", "err-ringcheck": "err"}
 
 
 def model_class(st):
